@@ -426,6 +426,7 @@ def monitors(h, out, default_group=1):
     buf_objs = {}               # creation index -> bufnum or None
     user_bufs, user_buses = set(), set()
     bus_blocks = set()
+    bus_ever = set()
     nbuf = 0
     nbus = 0
     node_ids = []               # creation index -> node id (None: constructor raised)
@@ -445,6 +446,8 @@ def monitors(h, out, default_group=1):
                 buf_blocks.add((a[1], a[2]))
             elif a[0] in ('cbus', 'abus') and a[1] is not None:
                 bus_blocks.add((a[0], a[1], a[2]))
+                bus_ever.add((a[0], a[1], a[2]))       # like the theorem's ledger: ids the allocator has handed out (a sub-bus
+                                                       # at offset 0 that is freed returns the parent's block; the parent stays usable)
         if o in ('synth', 'group', 's_reorder') and op['target']['t'] == 'int':
             node_known.add(op['target']['x'])
         if op.get('compl') and op['compl']['k'] == 'msg':
@@ -681,7 +684,7 @@ def monitors(h, out, default_group=1):
                 if kind == 'node' and x not in node_known:
                     bad.append((None, 'op %d (%s): %s mentions node id %s which the client never allocated' % (i, o, m[0], x)))
                 if kind == 'bus' and x != -1:
-                    if not (any(b[1] <= x < b[1] + b[2] for b in bus_blocks | bus_blocks_before) or x in user_buses):
+                    if not (any(b[1] <= x < b[1] + b[2] for b in bus_ever) or x in user_buses):
                         bad.append((None, 'op %d (%s): %s mentions bus %s outside every bus block the client allocated' % (i, o, m[0], x)))
                 if kind == 'buf':
                     owned = x in live_before or x in created or x in user_bufs or \
